@@ -5,5 +5,5 @@ set -e
 cd "$(dirname "$(readlink -f "$0")")/../.."
 export GOFLAGS=-mod=mod GOPROXY=off GOTOOLCHAIN=local
 mkdir -p .build/bin
-go1.26 build -o .build/bin/instr ./engine/instr
-VERIF_ROOT="$PWD" .build/bin/instr -id C17 -out "$PWD/.build/instr-C17" -events filesystem/lockfile.go:IsStale,Unlock
+go1.26 build -o .build/bin/instr-C17 ./engine/instr
+VERIF_ROOT="$PWD" .build/bin/instr-C17 -id C17 -out "$PWD/.build/instr-C17" -events filesystem/lockfile.go:IsStale,Unlock
